@@ -390,7 +390,7 @@ func main() {
 	}
 
 	// 2. generated ASTs
-	n := f.Count(350, 15000)
+	n := f.Count(350, 12000)
 	var printed []string
 	for i := 0; i < n; i++ {
 		r := gen.Fork(f.Seed, i)
@@ -406,7 +406,7 @@ func main() {
 	}
 
 	// 3. totality: mutated corpus / printed texts and random token soups
-	m := f.Count(1500, 60000)
+	m := f.Count(1500, 48000)
 	for i := 0; i < m; i++ {
 		r := gen.Fork(f.Seed, 1000000+i)
 		o := optsOf(r.Intn(16))
